@@ -138,10 +138,14 @@ type cfg struct {
 	vmsas      uint32
 	shapes     []string
 	pre        bool // endorsement file already present
+	// how the version-control back end reaches the run: "" = Context.VCS only; "vcss1"/"vcss2" =
+	// Context.VCSs seeded with one/two back ends (the documented transition mode); "after-real" = a
+	// real run on the same Context first (it leaves Context.VCSs populated), then this run.
+	how string
 }
 
 func (c cfg) String() string {
-	return fmt.Sprintf("dry=%v mo=%v snp=%v tdx=%v snapshot=%q cand=%q overwrite=%v vmsas=%d shapes=%v preexisting=%v", c.dry, c.mo, c.snp, c.tdxOn, c.snapshot, c.cand, c.overwrite, c.vmsas, c.shapes, c.pre)
+	return fmt.Sprintf("dry=%v mo=%v snp=%v tdx=%v snapshot=%q cand=%q overwrite=%v vmsas=%d shapes=%v preexisting=%v vcs=%q", c.dry, c.mo, c.snp, c.tdxOn, c.snapshot, c.cand, c.overwrite, c.vmsas, c.shapes, c.pre, c.how)
 }
 
 type result struct {
@@ -203,6 +207,24 @@ func run(auth *fx.Authority, image []byte, c cfg, dry, mo bool) result {
 	ctx := output.NewContext(keys.NewContext(context.Background(), kc), &output.Options{Quiet: true, Overwrite: c.overwrite})
 	ctx = endorse.NewContext(ctx, ec)
 	var res result
+	switch c.how {
+	case "vcss1":
+		ec.VCSs = []endorse.VersionControl{v}
+	case "vcss2":
+		ec.VCSs = []endorse.VersionControl{v, &recVCS{r: r, files: v.files}}
+	case "after-real":
+		if dry || mo {
+			ec.DryRun, ec.MeasurementOnly = false, false
+			octx := output.NewContext(ctx, &output.Options{Quiet: true, Overwrite: true})
+			captureStdout(func() { mc.Guard(func() { endorse.VirtualFirmware(endorse.NewContext(octx, ec)) }) })
+			ec.DryRun, ec.MeasurementOnly = dry, mo
+			for k := range v.files {
+				v.files[k] = []byte("previous")
+			}
+			r.log = nil
+			sg.digests = nil
+		}
+	}
 	res.stdout = captureStdout(func() {
 		p, val := mc.Guard(func() { res.err = endorse.VirtualFirmware(ctx) })
 		if p {
@@ -298,7 +320,12 @@ func main() {
 									if !tech[1] && sh != nil {
 										continue
 									}
-									cfgs = append(cfgs, cfg{dry: mode[0], mo: mode[1], snp: tech[0], tdxOn: tech[1], snapshot: snap, cand: cand, overwrite: ow, vmsas: vm, shapes: sh, pre: pre})
+									for _, how := range []string{"", "vcss1", "vcss2", "after-real"} {
+										if how != "" && (vm != 0 || sh != nil) {
+											continue // the back-end wiring does not depend on the measurement options
+										}
+										cfgs = append(cfgs, cfg{dry: mode[0], mo: mode[1], snp: tech[0], tdxOn: tech[1], snapshot: snap, cand: cand, overwrite: ow, vmsas: vm, shapes: sh, pre: pre, how: how})
+									}
 								}
 							}
 						}
@@ -314,6 +341,7 @@ func main() {
 			// Reference: the real run on a store without pre-existing files always succeeds.
 			refCfg := c
 			refCfg.pre = false
+			refCfg.how = ""
 			ref := run(auth, image, refCfg, false, false)
 			if ref.err != nil || ref.panic != nil {
 				mc.Fatal("reference real run failed for %s: %v %v", c, ref.err, ref.panic)
